@@ -735,7 +735,15 @@ class Interp:
         elif isinstance(target, ast.Subscript):
             base = self.ev(target.value, st)
             idx = self.ev_index(target.slice, st)
+            if base.kind == "objdict" and base.base is not None and base.base.obj is not None:
+                # self.__dict__["x"] = v  is a field write
+                key = idx.const if (idx.has_const() and isinstance(idx.const, str)) else "*"
+                self.emit(st, "write", node, loc=(base.base.obj.oid, key), objcls=base.base.obj.cls, mode="rebind", op="set",
+                          sub=None, rhs=v, cur=None, result=v)
+                return
             self.write_inplace(base, "set", (target.slice, idx), v, st, node)
+            if isinstance(target.value, ast.Name) and target.value.id not in st.env and not self._in_closure(target.value.id):
+                self.emit(st, "global-write", node, name=target.value.id, rhs=v)
             # local containers: remember what was stored
             if isinstance(target.value, ast.Name) and target.value.id in st.env:
                 cur = st.env[target.value.id]
@@ -770,6 +778,12 @@ class Interp:
                                                        elem=newel, mapping=mapping)
         elif isinstance(target, ast.Starred):
             self.assign(target.value, v, st, node)
+
+    def _in_closure(self, name):
+        fr = self.frames[-1]
+        if fr.closure_env is not None:
+            return any(name in env for env in fr.closure_env)
+        return False
 
     def write_field(self, base: Val, attr, v: Val, st, node):
         obj = base.obj
